@@ -68,7 +68,14 @@ type OpRec struct {
 	ctx            context.Context
 	Handle         int
 	Str            string
+	Deadline       time.Time // of the op's own context (zero: none)
+	ReturnAt       time.Time // simulated clock when it returned
 }
+
+// stall: an interval of simulated time during which the monitor was busy in
+// user code (a Verify that takes long) and resumed only once everybody else
+// had gone idle.
+type stall struct{ from, to time.Time }
 
 type Violation struct {
 	Oracle string `json:"oracle"`
@@ -185,6 +192,10 @@ type Run struct {
 	clients           int
 	finished          int
 	maxQueue          int
+	probing           bool // the liveness probe is under way
+	stalls            []stall
+	verifyCalls       int
+	enabledOK         bool // an EnableVerification call has returned success
 	postPhase         bool // the run is over: only the recorded history is examined
 	qcap              int
 	queueOffset       int
@@ -410,6 +421,7 @@ func (r *Run) opCtx(op *Op, rec *OpRec) (context.Context, context.CancelFunc) {
 	switch {
 	case op.Ctx == "deadline":
 		ctx, cancel = context.WithTimeout(base, time.Duration(op.D))
+		rec.Deadline = time.Now().Add(time.Duration(op.D))
 	case op.Ctx == "expired":
 		ctx, cancel = context.WithCancel(base)
 		cancel()
@@ -437,6 +449,7 @@ func (r *Run) begin(c *ClientSpec, idx int, op *Op) *OpRec {
 func (r *Run) end(rec *OpRec, err error) {
 	rec.Err = err
 	rec.Return = r.sim.Step()
+	rec.ReturnAt = time.Now()
 	if rec.ctx != nil && rec.ctx.Err() != nil && rec.CtxEndedAt == 0 {
 		rec.CtxEndedAt = rec.Return
 	}
@@ -751,6 +764,9 @@ func (r *Run) enabler(c *ClientSpec) {
 			rec.Ok = err == nil
 			r.end(rec, err)
 			cancel()
+			if err == nil {
+				r.enabledOK = true
+			}
 			if err == nil && r.queueNow() > r.queueCap() {
 				r.probe("enable-succeeded-behind-a-full-callback-queue")
 			}
